@@ -11,6 +11,7 @@
   Serialisation (serde_json / toml) is external: assumed `parse (print s) = s` on this type and
   exercised by the round-trip correspondence on the real binary.
 -/
+import FastPasta.Proofs.StatsSrcTie
 import FastPasta.Model.StatsCompare
 import FastPasta.Model.Collector
 namespace FastPasta
@@ -94,6 +95,22 @@ def exRec : StatsRec :=
     customChecksStatsErrors := [], totalErrors := 0, uniqueErrorCodes := [], stavesWithErrors := some [], alpide := none }
 example : WF exRec := by constructor <;> simp [exRec]
 example : validateOther exRec { exRec with hbfsSeen := 6 } = ["hbfs_seen"] := by decide
+
+/-! ### tie by translation: WHICH statistics are compared is read from the source on every run (`tools/stats2lean.py` →
+    `Spec/StatsSrcGen.lean`: the struct declarations, the copies `Self { f: other.f, .. }`, the `validate_fields!` field lists, the
+    sub-struct calls and the macro itself, each required to have exactly the expected shape) -/
+/-- the leaves `validate_other_stats` compares in the source are the leaves `validateOther` compares (so `validate_complete` /
+    `drift_detected` speak about every statistic the source compares), each exactly once, and no declared field of any statistics
+    struct is missing from its comparison -/
+theorem compared_fields_src :
+    SrcStats.order.Perm comparedLeafNames ∧ SrcStats.order.Nodup ∧
+    (∀ f ∈ SrcStats.RdhStats.fields, f ∈ SrcStats.RdhStats.compared ∨ f ∈ SrcStats.RdhStats.subs) ∧
+    (∀ f ∈ SrcStats.TriggerStats.fields, f ∈ SrcStats.TriggerStats.compared) ∧
+    (∀ f ∈ SrcStats.ItsStats.fields, f ∈ SrcStats.ItsStats.compared) ∧
+    (∀ f ∈ SrcStats.ErrorStats.fields, f ∈ SrcStats.ErrorStats.compared) ∧
+    (∀ f ∈ SrcStats.ReadoutFlags.fields, f ∈ SrcStats.ReadoutFlags.compared) :=
+  ⟨StatsSrcTie.order_eq.2.2.2.2.2.2, StatsSrcTie.order_nodup, StatsSrcTie.every_field_compared.1, StatsSrcTie.every_field_compared.2.1,
+   StatsSrcTie.every_field_compared.2.2.1, StatsSrcTie.every_field_compared.2.2.2.1, StatsSrcTie.every_field_compared.2.2.2.2.1⟩
 
 end C15
 end FastPasta
